@@ -44,8 +44,8 @@ use std::sync::{Arc, Mutex};
 use std::time::Duration;
 use vls_protocol_signer::approver::Approve;
 
-const HARD: u32 = 0x8000_0000;
-const NET: Network = Network::Testnet;
+pub const HARD: u32 = 0x8000_0000;
+pub const NET: Network = Network::Testnet;
 
 pub const TAGS: [&str; 10] = [
     "policy-onchain-format-standard",
@@ -63,7 +63,7 @@ pub const TAGS: [&str; 10] = [
 // ---------------------------------------------------------------------------------------------
 // scenario language
 
-fn parse_path(s: &str) -> Option<Vec<u32>> {
+pub fn parse_path(s: &str) -> Option<Vec<u32>> {
     if s == "-" || s.is_empty() {
         return Some(vec![]);
     }
@@ -77,7 +77,7 @@ fn parse_path(s: &str) -> Option<Vec<u32>> {
         })
         .collect()
 }
-fn path_str(p: &[u32]) -> String {
+pub fn path_str(p: &[u32]) -> String {
     if p.is_empty() {
         return "-".into();
     }
@@ -86,7 +86,7 @@ fn path_str(p: &[u32]) -> String {
         .collect::<Vec<_>>()
         .join(".")
 }
-fn to_dp(p: &[u32]) -> DerivationPath {
+pub fn to_dp(p: &[u32]) -> DerivationPath {
     p.iter().map(|c| ChildNumber::from(*c)).collect::<Vec<_>>().into()
 }
 
@@ -99,7 +99,7 @@ pub enum Desc {
     R(usize),
 }
 impl Desc {
-    fn parse(s: &str) -> Option<Desc> {
+    pub fn parse(s: &str) -> Option<Desc> {
         let parts: Vec<&str> = s.split('/').collect();
         let ty = |t: &str| t.chars().next().filter(|c| "wstkh".contains(*c) && t.len() == 1);
         match parts.as_slice() {
@@ -117,7 +117,7 @@ impl Desc {
             _ => None,
         }
     }
-    fn to_string(&self) -> String {
+    pub fn to_string(&self) -> String {
         match self {
             Desc::W(p, t) => format!("W/{}/{}", path_str(p), t),
             Desc::F(n, t) => format!("F/{}/{}", n, t),
@@ -171,7 +171,7 @@ impl Cfg {
             xpubs: list(p[5]).iter().map(|s| s.parse().ok()).collect::<Option<Vec<u32>>>()?,
         })
     }
-    fn to_string(&self) -> String {
+    pub fn to_string(&self) -> String {
         let l = |v: &Vec<String>| if v.is_empty() { "-".to_string() } else { v.join(",") };
         format!(
             "{};{};{};{};{};{}",
@@ -439,18 +439,18 @@ fn classify(t: &Truth) -> Class {
 // ---------------------------------------------------------------------------------------------
 // real objects
 
-fn foreign_key(n: u32) -> PublicKey {
+pub fn foreign_key(n: u32) -> PublicKey {
     let secp = Secp256k1::new();
     let mut b = [0x11u8; 32];
     b[..4].copy_from_slice(&(n + 1).to_be_bytes());
     PublicKey::from_secret_key(&secp, &SecretKey::from_slice(&b).unwrap())
 }
-fn ext_xpub(j: u32) -> Xpub {
+pub fn ext_xpub(j: u32) -> Xpub {
     let secp = Secp256k1::new();
     let seed = [(j as u8).wrapping_add(50); 32];
     Xpub::from_priv(&secp, &Xpriv::new_master(NET, &seed).unwrap())
 }
-fn key_script(pk: &PublicKey, ty: char) -> ScriptBuf {
+pub fn key_script(pk: &PublicKey, ty: char) -> ScriptBuf {
     let secp = Secp256k1::new();
     let cpk = CompressedPublicKey(*pk);
     match ty {
@@ -507,7 +507,7 @@ fn desc_script(env: &Env, d: &Desc, chan_ids: &[(ChannelId, lightning_signer::ch
         }
     }
 }
-fn allow_script(env_node: &Node, s: &str) -> Option<ScriptBuf> {
+pub fn allow_script(env_node: &Node, s: &str) -> Option<ScriptBuf> {
     let secp = Secp256k1::new();
     match Desc::parse(s)? {
         Desc::W(p, t) => {
